@@ -110,3 +110,24 @@ void h_area(void) {
     VF_REACHED();
 }
 #endif
+
+#ifdef VF_ENTRY_h_perimeter
+void h_perimeter(void) {
+    c14_state();
+    Polygon *this_ = &c14_poly;
+    double got = Polygon__perimeter(this_);
+    /* closed edge-length sum of the vertex list, edges in order, the closing edge last; zero below 3 vertices */
+    double expected = 0;
+    if (IN_cnt >= 3) {
+        for (int k = 0; k + 1 < C14_N; k++) if (k + 1 < IN_cnt) {
+            int64_t dx = (int64_t)IN_vx[k + 1] - IN_vx[k], dy = (int64_t)IN_vy[k + 1] - IN_vy[k];
+            expected += sqrt((double)(dx * dx + dy * dy));
+        }
+        int64_t dx = (int64_t)IN_vx[0] - IN_vx[IN_cnt - 1], dy = (int64_t)IN_vy[0] - IN_vy[IN_cnt - 1];
+        expected += sqrt((double)(dx * dx + dy * dy));
+    }
+    VF_ASSERT(got == expected, "perimeter() differs from the closed edge-length sum");
+    free(c14_poly.point_array.items);
+    VF_REACHED();
+}
+#endif
